@@ -40,6 +40,7 @@ func buildInputs(ctx *core.Ctx, paths []ModelPath, withRest bool) ([]Input, map[
 	// (b) tag sequences
 	add(TagSequences(ctx.Thorough(), ctx.Seed, ctx.Pick(40000, 150000)))
 	add(TagBodies())
+	add(StringHazards(ctx.Pick(400, 4000), ctx.Seed))
 	// (c) prefixes and (d) token mutations of the corpus and of generated files
 	files, err := CorpusFiles()
 	if err != nil {
@@ -490,6 +491,7 @@ func MarkTraces(inputs []Input, every int) {
 // Run is the entry point of the C05 checker.
 func Run(ctx *core.Ctx) {
 	ctx.Rule = "inputs: (entry point, byte string); families: (a) one input per (control state x character class) transition of the SoyLexer.tla state graph incl. EOF in every state (paths enumerated by TLC, spelled with representative characters), (b) all sequences of <=2 (thorough: + sampled triples) entries of the full tag dictionary and of every tag cut before its closing brace, at file level, in a template and inside every block kind (closed and left open), (c) every byte prefix of testdata/*.soy and of generated valid files, (d) single-token deletions/duplications/adjacent swaps, (e) seeded random bytes incl. invalid UTF-8, (f) replays of the TLC counterexamples of every model deviation; each goes to parse.SoyFile or parse.Expr in a worker sub-process; obligations: returns (tree or error), no panic, scanner steps <= 12*len+64. distinct_nontrivial = distinct (entry, text) with len>0"
+	ctx.Trusted = append(ctx.Trusted, "Go harness: worker pool, triage, probe, concretiser of model paths; reflection on the unexported fields state/input/pos of parse.lexer (coverage only)")
 	ctx.Assumptions = append(ctx.Assumptions,
 		"a hang is declared only when an input < 4 KB exceeds the 10 s watchdog in two fresh processes with the same frame in two goroutine dumps 1 s apart; the in-worker triage (no hook event for ~15 ms with the scanner goroutine busy in the same function, or > 512 zero items received after close) only selects candidates",
 		"for each structural signature the 2 shortest inputs are confirmed by probe; the other inputs with the same signature are counted in evidence (signatures) and not re-run",
@@ -549,12 +551,14 @@ func Run(ctx *core.Ctx) {
 		results[i].ID = i
 	}
 	var tw sync.WaitGroup
+	var traceRej map[string]int
+	var traceSecs float64
 	tw.Add(1)
 	go func() {
 		defer tw.Done()
 		t3 := time.Now()
-		validateSample(ctx, results)
-		phase["trace_validation_s"] = time.Since(t3).Seconds()
+		traceRej = validateSample(ctx, results)
+		traceSecs = time.Since(t3).Seconds()
 	}()
 	s := Summarize(inputs, results)
 	ctx.AddEvals(int64(s.Returned))
@@ -597,13 +601,19 @@ func Run(ctx *core.Ctx) {
 		ctx.ToolError("%d inputs were lost by their worker (first: %s)", len(s.Lost), results[s.Lost[0]].Err)
 	}
 	tw.Wait()
+	phase["trace_validation_s"] = traceSecs
+	if len(traceRej) > 0 {
+		// order anomalies are drift of the implementation-shaped protocol;
+		// return-before-scanner-exit is property C18 and judged there.
+		ctx.Extra["protocol_trace_rejections"] = traceRej
+	}
 	Coverage(ctx, modelEdges(models), pool.Edges())
 	models.Finish()
 	ctx.Extra["phase_seconds"] = phase
 }
 
 // validateSample has TLC validate a seeded sample of the recorded traces (M3).
-func validateSample(ctx *core.Ctx, results []Result) {
+func validateSample(ctx *core.Ctx, results []Result) map[string]int {
 	evs, _ := SampleTraces(results, ctx.Pick(4000, 40000), ctx.Seed)
 	rej := map[string]int{}
 	for lo := 0; lo < len(evs); lo += 10000 {
@@ -620,11 +630,7 @@ func validateSample(ctx *core.Ctx, results []Result) {
 			rej[b.Rule]++
 		}
 	}
-	if len(rej) > 0 {
-		// order anomalies are drift of the implementation-shaped protocol;
-		// return-before-scanner-exit is property C18 and judged there.
-		ctx.Extra["protocol_trace_rejections"] = rej
-	}
+	return rej
 }
 
 func modelEdges(m *Models) map[string]struct{} {
